@@ -91,7 +91,7 @@ CLAIMED = {
              "serialisers); (R3) tags are looked up for the immediate inner layer and the IPv6 extension chain links header "
              "i-1 to header i for every i >= 1, and a private mirror of a tag field that the serialiser falls back to is updated "
              "by every setter of that field; (R4) Ethernet/802.1Q padding is zero-filled after the payload and header + "
-             "payload + trailer_size() >= 60 for EthernetII on every cell. (R5) UDP: abstract interpretation over {zero, non-zero, unknown} shows the checksum patched into the datagram is never 0 (0 -> 0xffff whatever the parent); (R6) no serialiser-derived field is stored under an ordering comparison that reads its own old value (grow-only / shrink-only updates go stale). (R7) serialisers that store a next-protocol tag do not search the chain with find_pdu/rfind_pdu: the tag describes the immediate child; C12.R2 (every stored child gets its parent link) is re-run here because checksums and the MPLS bottom-of-stack bit need the parent. (R8) the members the children's pseudo-header reads from IP / IPv6 (source and destination address) are neither assigned nor set through their setters inside the parent's write_serialization, which runs after the children's. (R9) ICMP / ICMPv6 with extensions: the RFC 4884 length field times its unit (4 / 8) equals the offset at which trailer_size() starts the extension structure - both functions executed for seven sizes.",
+             "payload + trailer_size() >= 60 for EthernetII on every cell. (R5) UDP: abstract interpretation over {zero, non-zero, unknown} shows the checksum patched into the datagram is never 0 (0 -> 0xffff whatever the parent); (R6) no serialiser-derived field is stored under an ordering comparison that reads its own old value (grow-only / shrink-only updates go stale). (R7) serialisers that store a next-protocol tag do not search the chain with find_pdu/rfind_pdu: the tag describes the immediate child; C12.R2 (every stored child gets its parent link) is re-run here because checksums and the MPLS bottom-of-stack bit need the parent. (R8) the members the children's pseudo-header reads from IP / IPv6 (source and destination address) are neither assigned nor set through their setters inside the parent's write_serialization, which runs after the children's. (R9) ICMP / ICMPv6 with extensions: the RFC 4884 length field times its unit (4 / 8) equals the offset at which trailer_size() starts the extension structure - both functions executed for seven sizes. (R10) MPLS: a label with a parent gets its bottom-of-stack bit exactly when no MPLS label follows (serialiser executed for every layer class). (R3 also: the upper-layer tag of an IPv6 chain goes into the LAST extension header.)",
         note="NOT decided: the one's-complement arithmetic and CRC32 themselves, the values of length / offset expressions "
              "(tot_len, doff, payload_length ...), the UDP zero-checksum substitution value, agreement with libpcap filters - "
              "value-level. Tag tables are decided under C03.R2.",
@@ -105,7 +105,7 @@ CLAIMED = {
              "the out-of-order map holds - every insertion, erasure, in-place trim, replacement and move-out of a chunk "
              "is matched by the right counter adjustment on every CFG path, including whether a moved chunk is really "
              "consumed by the callee; (R2) two sequence numbers never meet in <,>,<=,>= outside the RFC1982 helpers "
-             "(necessary for wrap-safety); (R3) the cyclic walk over the sequence-keyed map wraps at every advance. (R4) a flow's expected sequence number is re-seeded from a SYN only while the flow is in its initial state (guard dominance); (R5) legacy follower: of two segments buffered at the same sequence number the longer one is kept and the other freed (finite evaluation of safe_insert over slot-empty x length orderings). (R3 also covers the legacy follower's drain loop in TCPStream::generic_process: every advance of the cyclic iterator is wrap-protected, through erase_iterator's own wrap test.) (R6) in the legacy drain loop a sliced fragment is re-inserted before the iterator is advanced; add/subtract_sequence_numbers are modulo-2^32 on the boundary cells. (R7) Internals::seq_compare, executed on 91 boundary pairs, has the sign of the signed 32-bit difference for every distance except exactly 2^31. (R8) Flow::process_packet reaches DataTracker::process_payload on EVERY path when the segment has a TCP layer and a payload and data is not switched off (formula.must_table: no other condition can return first).",
+             "(necessary for wrap-safety); (R3) the cyclic walk over the sequence-keyed map wraps at every advance. (R4) a flow's expected sequence number is re-seeded from a SYN only while the flow is in its initial state (guard dominance); (R5) legacy follower: of two segments buffered at the same sequence number the longer one is kept and the other freed (finite evaluation of safe_insert over slot-empty x length orderings). (R3 also covers the legacy follower's drain loop in TCPStream::generic_process: every advance of the cyclic iterator is wrap-protected, through erase_iterator's own wrap test.) (R6) in the legacy drain loop a sliced fragment is re-inserted before the iterator is advanced; add/subtract_sequence_numbers are modulo-2^32 on the boundary cells. (R7) Internals::seq_compare, executed on 91 boundary pairs, has the sign of the signed 32-bit difference for every distance except exactly 2^31. (R8) Flow::process_packet reaches DataTracker::process_payload on EVERY path when the segment has a TCP layer and a payload and data is not switched off (formula.must_table: no other condition can return first). (R3 also: a drain loop ordered by serial comparison starts at the current position, not at begin().) (R9) the IPv4 and IPv6 constructors of Flow use their port / sequence-number parameters for the same members.",
         note="Prefix/exactly-once delivery, overlap resolution and the legacy follower's equivalence are value-level and "
              "NOT decided. Assumes std::vector move leaves the source empty and that users do not mutate the map through "
              "the non-const accessor.",
@@ -119,7 +119,7 @@ CLAIMED = {
              "every path); terminate-once-and-forget (callback => erase, erase only when finished/limits/idle, no iterator "
              "use after erase); limits compared after every packet; routing by destination address AND port; and the "
              "formulas finished <=> RST|RST|(FIN&FIN), create <=> (SYN&!ACK)|(attach&data), terminate <=> chunks>max|bytes>max, "
-             "FIN/RST always reach FIN_SENT/RST_SENT - each checked on its complete truth table. (R7) Flow::process_packet calls update_state() under no other condition than the presence of a TCP layer. The key's operator< / operator== and the constructor's normalisation are EXECUTED over a two-valued domain per member when not written with std::tie (strict weak order whose equivalence is member-wise equality; endpoint pairs kept, smaller endpoint first); reachability of create / erase sites is computed as a function of the role conditions alone (formula.reach_table). (R8) no normal path from the stream look-up to the end of StreamFollower::process_packet avoids the keep-alive test (or a member that makes it). (R9) the IPv4 and IPv6 branches of Stream::extract_client_flow / extract_server_flow build their Flow from the same accessors.",
+             "FIN/RST always reach FIN_SENT/RST_SENT - each checked on its complete truth table. (R7) Flow::process_packet calls update_state() under no other condition than the presence of a TCP layer. The key's operator< / operator== and the constructor's normalisation are EXECUTED over a two-valued domain per member when not written with std::tie (strict weak order whose equivalence is member-wise equality; endpoint pairs kept, smaller endpoint first); reachability of create / erase sites is computed as a function of the role conditions alone (formula.reach_table). (R8) no normal path from the stream look-up to the end of StreamFollower::process_packet avoids the keep-alive test (or a member that makes it). (R9) the IPv4 and IPv6 branches of Stream::extract_client_flow / extract_server_flow build their Flow from the same accessors. (R8 also: no sweep between the stream look-up and the later uses of its iterator.)",
         note="NOT decided: equality of the callback trace with a reference connection table under arbitrary interleavings; "
              "reassembly per direction is C06. User callbacks are assumed not to re-enter the follower.",
     ),
@@ -147,7 +147,7 @@ CLAIMED = {
              "src/crypto.cpp (payload vectors, PTK, scratch blocks, OpenSSL block/digest sizes); (R3) WPA2 keys are "
              "looked up by source pair then destination pair; (R4) the step table of RSNHandshakeCapturer::do_insert: a "
              "message is appended iff it is the next expected one and a retransmission of the last stored message leaves "
-             "the partial handshake untouched. Two genuine memory-safety defects found here were repaired with fix: commits. (R5) session keys derived from a newly captured handshake, or supplied by the user, overwrite the entry for the same address pair (map subscript assignment; insert()/emplace() keep the stale key). (R6) WEP: every registration of a password keeps key_buffer_ at least 3 + the longest key (grow-only resize through max() or a guarded resize), since decrypt() copies IV + key unchecked; (R7) a completed handshake taken from the capturer is cleared on every path afterwards (directly or through a callee that always clears). (R8) find_ap, extract_addr_pair, extract_addr_pair_dst and the WEP look-up select BSSID / source / destination among addr1-3 as the IEEE 802.11 To-DS/From-DS table prescribes, for the three 3-address combinations. (R9) the capturer's table of partial handshakes is modified per station only (erase(key)); a clear() outside the user-requested reset is a violation. (R10) every 16-bit word the TKIP key mixing (RC4Key::from_packet) builds from two octets of one array has the least significant octet at the lower offset (key, transmitter address), and the three words taken from the TKIP header are IV16 = (octet 0, octet 2), Lo16(IV32) = (octet 5, octet 4), Hi16(IV32) = (octet 7, octet 6) (found and fixed: IV32 was loaded with its octets swapped, so frames with TSC >= 65536 were never decrypted). (R10 also: the address mixed into TKIP phase 1 is addr2(), the transmitter.) (R11) every key under which WPA2Decrypter stores or looks up session keys is made by make_addr_pair (directly or through extract_addr_pair*).",
+             "the partial handshake untouched. Two genuine memory-safety defects found here were repaired with fix: commits. (R5) session keys derived from a newly captured handshake, or supplied by the user, overwrite the entry for the same address pair (map subscript assignment; insert()/emplace() keep the stale key). (R6) WEP: every registration of a password keeps key_buffer_ at least 3 + the longest key (grow-only resize through max() or a guarded resize), since decrypt() copies IV + key unchecked; (R7) a completed handshake taken from the capturer is cleared on every path afterwards (directly or through a callee that always clears). (R8) find_ap, extract_addr_pair, extract_addr_pair_dst and the WEP look-up select BSSID / source / destination among addr1-3 as the IEEE 802.11 To-DS/From-DS table prescribes, for the three 3-address combinations. (R9) the capturer's table of partial handshakes is modified per station only (erase(key)); a clear() outside the user-requested reset is a violation. (R10) every 16-bit word the TKIP key mixing (RC4Key::from_packet) builds from two octets of one array has the least significant octet at the lower offset (key, transmitter address), and the three words taken from the TKIP header are IV16 = (octet 0, octet 2), Lo16(IV32) = (octet 5, octet 4), Hi16(IV32) = (octet 7, octet 6) (found and fixed: IV32 was loaded with its octets swapped, so frames with TSC >= 65536 were never decrypted). (R10 also: the address mixed into TKIP phase 1 is addr2(), the transmitter.) (R11) every key under which WPA2Decrypter stores or looks up session keys is made by make_addr_pair (directly or through extract_addr_pair*). (R10 also: CCMP AAD octet 22 carries the fragment number.)",
         note="NOT decided: cipher correctness, PTK derivation, handshake orderings (seeded changes of that kind are not "
              "detected). One CCMP per-block offset depends on division/modulo and is listed as undecided, not proven.",
     ),
@@ -180,7 +180,7 @@ CLAIMED = {
              "start; (R3) it_len/FCS are derived at serialisation and the parser rejects a failed FCS only when an FCS is present; (R4) an inserted field's present bit is always recorded; "
              "(R5) one re-padding step leaves exactly the needed padding for all (existing, needed) pairs; (R6) "
              "`offset == offset0 + i + D` is an inductive invariant of update_paddings and every buffer edit addresses the "
-             "padding run being fixed - the rule that found the order-dependent layout corruption (fixed, 9ffa2d0). (R7) RadioTapWriter::write_option inserts at the position the field walk stopped at (or 0 in an empty buffer), never at buffer_.size(). Getters of a field made of several scalars decode exactly one of the scalars the setter lays out (slot agreement), whether bytes are moved by memcpy or through the cursor classes.",
+             "padding run being fixed - the rule that found the order-dependent layout corruption (fixed, 9ffa2d0). (R7) RadioTapWriter::write_option inserts at the position the field walk stopped at (or 0 in an empty buffer), never at buffer_.size(). Getters of a field made of several scalars decode exactly one of the scalars the setter lays out (slot agreement), whether bytes are moved by memcpy or through the cursor classes. (R5 also: the needed-padding formula of update_paddings is evaluated for alignments 1/2/4/8 and offsets 0..16; write_option hands update_paddings offset + own padding + size.)",
         note="NOT decided: last-write-wins and canonical layout over arbitrary setter sequences as a whole (the rules are "
              "necessary local conditions of it: table agreement, alignment origin, single-step correctness, cursor "
              "invariant), extended present words / vendor namespaces, parsing of hostile headers (C01).",
@@ -239,7 +239,7 @@ CLAIMED = {
              "the raw-IP handler); "
              "(R4) every handler marks the frame processed on all paths, "
              "next_packet loops only while no packet was produced and the handler ran, a negative pcap result yields a null "
-             "packet. (R5) every pcap_pkthdr libtins hands to pcap_dump / pcap_offline_filter has caplen and len (and ts for the writer) assigned from the frame on every path to the call; (R6) every Packet constructor / assignment operator that receives a timestamp or another packet object stores that timestamp in ts_ (copy, move, RefPacket, PtrPacket). (R5 also bounds caplen by the size() of the byte container handed to libpcap; R6 also requires a null test before dereferencing the source packet's layer pointer in the copy members.) (R7) in sniff_loop (instantiated in a synthetic TU) the try block that swallows the callback's malformed_packet / pdu_not_found lies inside the packet loop. (R8) SnifferIterator: fetches on construction and on both increments, turns into the end iterator when next_packet() yields none, compares by sniffer pointer, != negates ==. (R9) every PacketWriter constructor writes handle_ and dumper_ before anything reads them, following the member it delegates to (move constructor -> move assignment). (R1/R2 also read a constant {link type, &handler} table searched by a loop.)",
+             "packet. (R5) every pcap_pkthdr libtins hands to pcap_dump / pcap_offline_filter has caplen and len (and ts for the writer) assigned from the frame on every path to the call; (R6) every Packet constructor / assignment operator that receives a timestamp or another packet object stores that timestamp in ts_ (copy, move, RefPacket, PtrPacket). (R5 also bounds caplen by the size() of the byte container handed to libpcap; R6 also requires a null test before dereferencing the source packet's layer pointer in the copy members.) (R7) in sniff_loop (instantiated in a synthetic TU) the try block that swallows the callback's malformed_packet / pdu_not_found lies inside the packet loop. (R8) SnifferIterator: fetches on construction and on both increments, turns into the end iterator when next_packet() yields none, compares by sniffer pointer, != negates ==. (R9) every PacketWriter constructor writes handle_ and dumper_ before anything reads them, following the member it delegates to (move constructor -> move assignment). (R1/R2 also read a constant {link type, &handler} table searched by a loop.) (R6 also: PacketWriter::write(Packet&) writes the record with the packet's own timestamp on every path; R8 also: post-increment does not build an iterator from the sniffer pointer.)",
         note="Byte/timestamp round-trip through PacketWriter/FileSniffer and agreement with libpcap's BPF matcher are "
              "runtime-value clauses and NOT decided. libpcap is assumed to call the handler at most once per pcap_loop(...,1,...).",
     ),
@@ -253,7 +253,7 @@ CLAIMED = {
              "of template patterns) is const without mutable parts, never written outside its initialiser, or a "
              "listed registry written only by register_allocator; no non-re-entrant libc call on the thread-private "
              "surface; HMAC never uses its static result buffer. Anything new that is writable is a violation by "
-             "default; positive controls run on every invocation.",
+             "default; positive controls run on every invocation. (A static CONST POINTER to a non-const object that is handed to a callee as pointer-to-non-const is shared mutable state.)",
         note="Does not model state inside libpcap/OpenSSL/libstdc++ beyond the deny-list; 'each thread obtains the "
              "same results' follows only under that assumption. register_allocator is treated as configuration "
              "performed before threads start.",
@@ -272,7 +272,7 @@ CLAIMED = {
              "every other field keeps the value that was set; (R5) the little- and big-endian declarations of every packed "
              "header agree on the wire bits of each bit-field of equal name and width (96 fields; found and fixed PPPoE's "
              "version/type nibbles). Option-backed accessors (34) and non-scalar "
-             "parameters (100) are outside this property's scalar-field quantifier and are counted in the evidence. (R6) setters taking an IPv4/IPv6/hardware address store exactly the address's network-order image (for IPv4Address the bits of operator uint32_t()): no additional byte swap, so the serialization carries the octets in order. (R7) selector accessors (TCP::set_flag / get_flag over all 8 enumerators): value returned, other selectors untouched, value shown at the enumerator's own bit of flags(); R2 also rejects range checks whose limit is not 2^k-1; (R8) 15 length / header-length / checksum fields are stored on every path through their serialiser. (R9) BootP::chaddr<20> (instantiated in a synthetic TU) writes only the 16-octet chaddr field; C05.R3 mirror pairing is re-run here.",
+             "parameters (100) are outside this property's scalar-field quantifier and are counted in the evidence. (R6) setters taking an IPv4/IPv6/hardware address store exactly the address's network-order image (for IPv4Address the bits of operator uint32_t()): no additional byte swap, so the serialization carries the octets in order. (R7) selector accessors (TCP::set_flag / get_flag over all 8 enumerators): value returned, other selectors untouched, value shown at the enumerator's own bit of flags(); R2 also rejects range checks whose limit is not 2^k-1; (R8) 15 length / header-length / checksum fields are stored on every path through their serialiser. (R9) BootP::chaddr<20> (instantiated in a synthetic TU) writes only the 16-octet chaddr field; C05.R3 mirror pairing is re-run here. (Setters that branch on the value are enumerated path by path and get(set(v)) == v is evaluated for all 2^w values.)",
         note="NOT decided: that bit positions are those the protocol specification assigns (R5 only makes the two "
              "declarations agree with each other); the serialisation-diff clause beyond 'only the field's own members change'; "
              "the accessor code of the big-endian #if arms (their declarations are compared by R5). Trusted: clang's record "
@@ -295,7 +295,7 @@ CLAIMED = {
              "(R6) iteration: increment_buffer / decrement_buffer (IPv6, hardware addresses) are the big-endian successor / predecessor "
              "for every carry length 0..N and return true exactly on wrap-around (abstract interpretation of the carry chain over "
              "{pivot, not pivot, any} bytes of the real length); the scalar IPv4 increment's flag means wrap-around too; the range "
-             "iterator takes its flag from increment(address_) in both the end sentinel (body or member initialiser after address_) and operator++, compares address and flag, and its operator!= is the exact negation of operator== (delegating or written out: truth table); the IPv4 successor and its wrap flag are EXECUTED on 13 boundary values when not written `++v == 0`. (R7) IPv4Address::from_prefix_length evaluated for all 33 prefix lengths and IPv6Address::from_prefix_length / operator/(HWAddress<6>, int) interpreted byte-wise for all 129 / 49: exact masks, no out-of-range shift (undefined behaviour reported as such); (R8) inet_ntop is given a buffer of at least INET6_ADDRSTRLEN / INET_ADDRSTRLEN bytes and that buffer's size. (R9) the hardware-address printer maps each of the 16 nibble values to its hexadecimal digit, high nibble first. (R4 also rejects scanf/strtoul-style parsing in the address text constructors.) (R10) the byte loops of HWAddress<6> (mask operators, broadcast fill) visit exactly positions 0..5. (R11) the post-increment of the range iterators steps through the pre-increment of the same object, never through itself (an unconditional self-call never returns), and returns the copy taken before (found and fixed: `it++` recursed until the stack was exhausted). Text conversion rules execute the code for all 256 byte values, so lookup tables, helpers and arithmetic are judged alike. (R3 also: a raw copy out of the address in a hash has the address's own size as its length.)",
+             "iterator takes its flag from increment(address_) in both the end sentinel (body or member initialiser after address_) and operator++, compares address and flag, and its operator!= is the exact negation of operator== (delegating or written out: truth table); the IPv4 successor and its wrap flag are EXECUTED on 13 boundary values when not written `++v == 0`. (R7) IPv4Address::from_prefix_length evaluated for all 33 prefix lengths and IPv6Address::from_prefix_length / operator/(HWAddress<6>, int) interpreted byte-wise for all 129 / 49: exact masks, no out-of-range shift (undefined behaviour reported as such); (R8) inet_ntop is given a buffer of at least INET6_ADDRSTRLEN / INET_ADDRSTRLEN bytes and that buffer's size. (R9) the hardware-address printer maps each of the 16 nibble values to its hexadecimal digit, high nibble first. (R4 also rejects scanf/strtoul-style parsing in the address text constructors.) (R10) the byte loops of HWAddress<6> (mask operators, broadcast fill) visit exactly positions 0..5. (R11) the post-increment of the range iterators steps through the pre-increment of the same object, never through itself (an unconditional self-call never returns), and returns the copy taken before (found and fixed: `it++` recursed until the stack was exhausted). Text conversion rules execute the code for all 256 byte values, so lookup tables, helpers and arithmetic are judged alike. (R3 also: a raw copy out of the address in a hash has the address's own size as its length.) (R4 also: the C-string constructors skip the validating parser for the null pointer only.)",
         note="NOT decided: IPv4/IPv6 text round trip (delegated to inet_pton/ntop), agreement of < with numeric byte order "
              "(IPv4 host-order storage), prefix-length masks at /0,/31,/32,/127,/128, group structure of the hardware "
              "grammar, the order of visited addresses as a whole (the successor function and the end protocol are decided, R6) - value-level.",
@@ -309,7 +309,7 @@ CLAIMED = {
              "neither ends below the cumulative ACK nor is SACKed => not acknowledged; otherwise continue; true only after "
              "the last piece (complete table: values are only touched through seq_compare's sign and set membership); (R2) "
              "every ACK advance in process_packet is preceded by cleanup_sacked_intervals(old, new); (R3) sequence numbers "
-             "are ordered only through seq_compare; (R4) no well-formed SACK block above the ACK is skipped. (R5) a SACKed piece that starts >= 1 above the cumulative ACK is recorded, never folded into the ACK (finite evaluation of the branch condition with the real seq_compare body over ACK values around 0, 2^31 and the wrap and distances 1,2,3,1460,2^31-1); (R6) process_sack() is reachable both through and around the ACK advance. (R7) the AckTracker a Flow creates is told to read SACK blocks (use_sack true / defaulted), never gated on the flow's own SACK-permitted flag. (R8) the SACK piece loop is guarded only by index-in-range, left<right and ends-above-ACK; Flow::process_packet feeds the tracker under no condition but the TCP layer's presence and ack_tracking. (R8 also: the SACK block index is bounded by the option's own size, not by a smaller quantity; no member of Flow that REPLACES ack_tracker_ runs after the tracker was fed with the same segment. R2: the cleanup before the cumulative ACK moves is recognised by its effect - every piece of AckedRange(old, new) erased - in a member or in place.)",
+             "are ordered only through seq_compare; (R4) no well-formed SACK block above the ACK is skipped. (R5) a SACKed piece that starts >= 1 above the cumulative ACK is recorded, never folded into the ACK (finite evaluation of the branch condition with the real seq_compare body over ACK values around 0, 2^31 and the wrap and distances 1,2,3,1460,2^31-1); (R6) process_sack() is reachable both through and around the ACK advance. (R7) the AckTracker a Flow creates is told to read SACK blocks (use_sack true / defaulted), never gated on the flow's own SACK-permitted flag. (R8) the SACK piece loop is guarded only by index-in-range, left<right and ends-above-ACK; Flow::process_packet feeds the tracker under no condition but the TCP layer's presence and ack_tracking. (R8 also: the SACK block index is bounded by the option's own size, not by a smaller quantity; no member of Flow that REPLACES ack_tracker_ runs after the tracker was fed with the same segment. R2: the cleanup before the cumulative ACK moves is recognised by its effect - every piece of AckedRange(old, new) erased - in a member or in place.) (R2 also: the cumulative ACK advances on every path on which seq_compare(new, old) > 0; R8 also: the transition to ESTABLISHED re-creates the tracker from the segment's ACK.)",
         note="NOT decided: the interval arithmetic over the wrapping 32-bit space, interval merging/splitting, agreement "
              "with a set-of-acknowledged-bytes model over histories - these are value-level.",
     ),
